@@ -50,6 +50,16 @@ def build_product(tier):
             for via in ("api", "cli"):
                 cases.append({"part": "product", "truth": truth, "kinds": [k for k in pj.KINDS if k in (truth, other)], "pre": ["agree"],
                               "method": False, "version": "v1", "via": via, "extra_same_kind": pre})
+    # textual surroundings of the target: unterminated / indentation-only last line, the definition's name as a string
+    # before it, a column-aligned module docstring
+    for truth in pj.KINDS:
+        for kinds in subsets_with(truth):
+            targets = [k for k in kinds if k != truth]
+            for base in ("nodef", "stale", "agree"):
+                for layout in pj.LAYOUTS:
+                    for method in ((False, True) if tier == "thorough" else (False,)):
+                        cases.append({"part": "product", "truth": truth, "kinds": kinds, "pre": ["%s@%s" % (base, layout)] * len(targets),
+                                      "method": method, "version": "v1", "via": "api"})
     return cases
 
 
